@@ -12,6 +12,21 @@ import aquacrop.timestep.check_if_model_is_finished as MF
 import aquacrop.core as MCORE
 
 
+class Day(int):
+    """concrete day ordinal: differences of dates have .days, like pandas Timedelta (the symbolic SI has the same property)"""
+
+    def __add__(self, o): return Day(int(self) + int(o))
+    __radd__ = __add__
+
+    def __sub__(self, o): return Day(int(self) - int(o))
+
+    def __rsub__(self, o): return Day(int(o) - int(self))
+
+    @property
+    def days(self):
+        return int(self)
+
+
 def _clock_configs(tier):
     out = []
     for off in (False, True):
@@ -28,12 +43,13 @@ def _clock_configs(tier):
          configs=_clock_configs, goals=["jump-to-next-planting", "season-starts-next-day", "run-finishes"])
 def h_clock(ctx, cfg):
     off, nseas, sc, hf = cfg["off"], cfg["nseas"], cfg["sc"], cfg["hf"]
-    start = ctx.int("start", 0, 100000)
+    D = (lambda x: x) if ctx.symbolic else Day
+    start = D(ctx.int("start", 0, 100000))
     n = ctx.int("n_days", 2, 250000)
     span = Span(start, n)
     end = start + n - 1
-    P = [ctx.int(f"planting[{k}]", 0, 400000) for k in range(nseas)]
-    H = [ctx.int(f"harvest[{k}]", 0, 400000) for k in range(nseas)]
+    P = [D(ctx.int(f"planting[{k}]", 0, 400000)) for k in range(nseas)]
+    H = [D(ctx.int(f"harvest[{k}]", 0, 400000)) for k in range(nseas)]
     for k in range(nseas):
         ctx.assume(And(P[k] < H[k], P[k] >= start, P[k] < end))          # well-formed season table (derived from date strings: outside the claim)
         if k:
